@@ -74,7 +74,168 @@ def history_obligations(R, W, scen, nhist, length, seed):
          bounded=f'{nhist} histories x {length} requests')
 
 
+def callgraph_obligation(R):
+    """Well-founded recursion: in EVERY cache state (any subset of the guard keys cached, everything else uncached --
+    all reachable through evictions), the 'needs-to-compute' call graph of the quantity methods is acyclic.
+    Reads are taken from the AST of the real methods, path-sensitively in the cache guards (other tests: both
+    branches), helper methods inlined.  This is the termination premise of the induction over histories."""
+    import ast, inspect, itertools, textwrap
+    import aurel.core as C
+    from engine.e1 import discover_guards
+    t0 = time.time()
+    cls = C.AurelCore
+    trees = {}
+    for n, f in cls.__dict__.items():
+        if callable(f) and not n.startswith('__') and hasattr(f, '__code__'):
+            trees[n] = ast.parse(textwrap.dedent(inspect.getsource(f))).body[0]
+    keys = [k for k in C.descriptions if k in trees]
+    gall = set()
+    for n in trees:
+        try:
+            gall |= set(discover_guards(getattr(cls, n))['keys'])
+        except Exception:
+            pass
+    gkeys = sorted(g for g in gall if g in trees and g in C.descriptions)
+
+    class Data(set):
+        def keys(self):
+            return self
+
+    class Fake:
+        def __init__(self, cached):
+            self.data = Data(cached)
+
+    def reads(name, cached, depth=0, seen=frozenset()):
+        out = set()
+        if name in seen or depth > 6:
+            return out
+        seen = seen | {name}
+
+        def visit_expr(node):
+            for sub in ast.walk(node):
+                if isinstance(sub, ast.Subscript) and isinstance(sub.value, ast.Name) and sub.value.id == 'self' \
+                        and isinstance(sub.slice, ast.Constant) and isinstance(sub.slice.value, str):
+                    out.add(sub.slice.value)
+                if isinstance(sub, ast.Call) and isinstance(sub.func, ast.Attribute) and isinstance(sub.func.value, ast.Name) \
+                        and sub.func.value.id == 'self' and sub.func.attr in trees and sub.func.attr not in C.descriptions:
+                    out.update(reads(sub.func.attr, cached, depth + 1, seen))
+
+        def visit(stmts):
+            for st in stmts:
+                if isinstance(st, ast.If):
+                    try:
+                        val = eval(compile(ast.Expression(body=st.test), '<guard>', 'eval'), {'self': Fake(cached)})
+                        decided = isinstance(val, bool)
+                    except Exception:
+                        decided = False
+                    visit_expr(st.test)
+                    if decided:
+                        visit(st.body if val else st.orelse)
+                    else:
+                        visit(st.body)
+                        visit(st.orelse)
+                elif isinstance(st, ast.For):
+                    visit_expr(st.iter)
+                    visit(st.body)
+                elif isinstance(st, ast.While):
+                    visit_expr(st.test)
+                    visit(st.body)
+                elif isinstance(st, ast.With):
+                    visit(st.body)
+                elif isinstance(st, ast.Try):
+                    visit(st.body)
+                    for h in st.handlers:
+                        visit(h.body)
+                else:
+                    visit_expr(st)
+        visit(trees[name].body)
+        return out
+    # which guard keys influence which method (transitively through helpers): by comparing reads over single flips is
+    # not sound, so a method's reads are memoised on the FULL guard assignment restricted to the guard keys that
+    # syntactically occur in it or in any helper it calls
+    def occurring(name, seen=frozenset()):
+        if name in seen:
+            return set()
+        o = set()
+        for sub in ast.walk(trees[name]):
+            if isinstance(sub, ast.Constant) and sub.value in gkeys:
+                o.add(sub.value)
+            if isinstance(sub, ast.Call) and isinstance(sub.func, ast.Attribute) and isinstance(sub.func.value, ast.Name) \
+                    and sub.func.value.id == 'self' and sub.func.attr in trees and sub.func.attr not in C.descriptions:
+                o |= occurring(sub.func.attr, seen | {name})
+        return o
+    occ = {k: frozenset(occurring(k)) for k in keys}
+    memo = {}
+    uniq = {}
+    nstates = 0
+    for bits in itertools.product([False, True], repeat=len(gkeys)):
+        cached = frozenset(g for g, b in zip(gkeys, bits) if b)
+        nstates += 1
+        graph = {}
+        for k in keys:
+            if k in cached:
+                continue
+            sig = (k, cached & occ[k])
+            if sig not in memo:
+                memo[sig] = frozenset(r for r in reads(k, cached & occ[k]) if r in trees and r in C.descriptions)
+            graph[k] = [r for r in memo[sig] if r not in cached]
+        colour = {}
+        for root in graph:
+            if root in colour:
+                continue
+            stack = [(root, iter(graph[root]))]
+            colour[root] = 1
+            path = [root]
+            while stack:
+                node, it = stack[-1]
+                nxt = next(it, None)
+                if nxt is None:
+                    colour[node] = 2
+                    stack.pop()
+                    path.pop()
+                    continue
+                if colour.get(nxt) == 1:
+                    cyc = path[path.index(nxt):] + [nxt]
+                    uniq.setdefault(' -> '.join(cyc), sorted(cached))
+                    continue
+                if nxt not in colour and nxt in graph:
+                    colour[nxt] = 1
+                    stack.append((nxt, iter(graph[nxt])))
+                    path.append(nxt)
+        if len(uniq) > 8:
+            break
+    detail = '; '.join(f'cycle {c} when exactly these guard keys are cached: {st}' for c, st in list(uniq.items())[:4])
+
+    def replay(o):
+        import aurel
+        if not uniq:
+            return False, 'no cycle'
+        for cyc, cached in uniq.items():
+            names = cyc.split(' -> ')
+            fd = aurel.FiniteDifference(dict(Nx=6, Ny=6, Nz=6, xmin=0., ymin=0., zmin=0., dx=1., dy=1., dz=1.), verbose=False)
+            rel = aurel.AurelCore(fd, verbose=False)
+            try:
+                for k in cached:
+                    rel[k]
+                for k in list(rel.data):
+                    if k not in cached:
+                        del rel.data[k]
+                        rel.last_accessed.pop(k, None)
+                rel[names[0]]
+            except RecursionError:
+                return True, (f'real AurelCore in which exactly {cached} are cached (everything else evicted, as cleanup_cache may do): '
+                              f'rel[{names[0]!r}] raises RecursionError ({cyc})')
+            except Exception as e:
+                continue
+        return False, 'the cycles found in the graph did not recurse natively'
+    R.ob('core.call-graph:well-founded in every reachable cache state (no recursion cycle among uncached keys)', '__getitem__',
+         'refuted' if uniq else 'discharged', 'ast-graph', time.time() - t0,
+         detail or f'{nstates} cache states over the {len(gkeys)} guard keys {gkeys}: call graph of {len(keys)} keys acyclic', sorted(uniq) or None, replay=replay)
+
+
 def run(R):
+    from engine.canary import run_canaries
+    run_canaries(R, ('e1', 'symx'))
     from props import cachevc
     W = Worlds(R.seed)
     npts = 1 if R.tier == 'quick' else 2
@@ -95,5 +256,6 @@ def run(R):
             helper_obligations(R, W, s, only={'s_to_st'}, npoints=npts, present=present,
                                tag='|cache:' + ('+'.join(present) or '-'))
     cachevc.getitem_obligations(R)
+    callgraph_obligation(R)
     history_obligations(R, W, 'onshell', 4 if R.tier == 'quick' else 40, 25, R.seed)
     history_obligations(R, W, 'fluid', 4 if R.tier == 'quick' else 40, 25, R.seed)
